@@ -11,7 +11,10 @@ EXTENDS Integers, Sequences, FiniteSets
 
 Cases == [tr : {"http", "inproc"}, scheme : {"http", "https"}, require : BOOLEAN,
           creds : {"none", "ok", "empty", "error"}, callermd : {"none", "disjoint", "overlap"},
-          kind : {"unary", "stream"}, peeropt : 0..2]
+          kind : {"unary", "stream"}, peeropt : 0..2,
+          \* the handler returns nil / a non-OK status (after it has run: the peer
+          \* is known either way)
+          outcome : {"ok", "fail"}]
 
 \* in-process channels count as secure; the scheme only matters over HTTP
 Secure(c) == c.tr = "inproc" \/ c.scheme = "https"
@@ -32,7 +35,7 @@ Expected(c) ==
 V(ok, why) == IF ok THEN {} ELSE {why}
 AsSet(s) == {s[i] : i \in DOMAIN s}
 
-\* o: case fields + err (the call failed), requests (HTTP requests issued; -1
+\* o: case fields + err (the call failed), herr (... with the handler's status), requests (HTTP requests issued; -1
 \* in-process), ran (handler ran), hmd (handler's incoming metadata on the
 \* k-* keys: sequence of <<key, values>>), cpeer (every grpc.Peer target has
 \* an address), ctls (every target has TLS auth info), hpeer, htls (same in
@@ -43,7 +46,7 @@ Chk(o) ==
        V(o.err, "insecure-or-failing-credentials-not-refused")
        \cup V(~o.ran, "handler-ran-despite-refused-credentials")
        \cup V(o.requests <= 0, "request-issued-before-credentials-check")
-  ELSE V(~o.err /\ o.ran, "call-failed")
+  ELSE V(o.ran /\ (IF o.outcome = "ok" THEN ~o.err ELSE o.herr), "call-failed-or-wrong-outcome")
        \cup V(AsSet(o.hmd) = Expected(o), "handler-metadata-not-the-join-of-caller-and-credentials")
        \cup V(o.hpeer, "handler-peer-address-missing")
        \cup V(o.peeropt = 0 \/ o.cpeer, "peer-option-address-missing")
